@@ -26,12 +26,12 @@ type FuncInfo struct {
 }
 
 type World struct {
-	Fset      *token.FileSet
-	Pkgs      map[string]*packages.Package // by short path ("helper", "strategy/trend")
-	Funcs     map[string]*FuncInfo         // by key
-	ByObj     map[*types.Func]*FuncInfo
-	Contracts map[string]*Contract // by key "helper.Skip"
-	RepoDir   string
+	Fset           *token.FileSet
+	Pkgs           map[string]*packages.Package // by short path ("helper", "strategy/trend")
+	Funcs          map[string]*FuncInfo         // by key
+	ByObj          map[*types.Func]*FuncInfo
+	Contracts      map[string]*Contract // by key "helper.Skip"
+	RepoDir        string
 	IfaceContracts map[string]*Contract // "trend.Ma.Compute"
 }
 
